@@ -318,8 +318,14 @@ func (s *Session) Exec2(t []string, num func(int) uint64) (obs, viol string, han
 			stop = int(num(3))
 		}
 		var got []string
+		done, after := false, 0
 		err := m.SeekIter(s.ctx, s.Cfg.Key(k), func(key, val interface{}) error {
+			if done {
+				after++ // the callback has signalled done: it must not be called again
+				return mast.ErrIterDone
+			}
 			if stop >= 0 && len(got) >= stop {
+				done = true
 				return mast.ErrIterDone
 			}
 			got = append(got, fmt.Sprintf("%d=%d", s.Cfg.KeyNat(key), s.Cfg.ValNat(val)))
@@ -327,6 +333,9 @@ func (s *Session) Exec2(t []string, num func(int) uint64) (obs, viol string, han
 		})
 		if err != nil {
 			return errClass(err), "SeekIter failed on a healthy store: " + err.Error(), true
+		}
+		if after > 0 {
+			viol = fmt.Sprintf("SeekIter called the callback %d more time(s) after it had signalled done", after)
 		}
 		o := s.Oracle[int(num(1))]
 		var want []string
@@ -336,7 +345,7 @@ func (s *Session) Exec2(t []string, num func(int) uint64) (obs, viol string, han
 			}
 		}
 		obs = "[" + strings.Join(got, ",") + "]"
-		if obs != "["+strings.Join(want, ",")+"]" {
+		if viol == "" && obs != "["+strings.Join(want, ",")+"]" {
 			viol = fmt.Sprintf("SeekIter from %d yields %s, entries not smaller than the probe are [%s]", k, obs, strings.Join(want, ","))
 		}
 		return obs, viol, true
